@@ -1846,3 +1846,7 @@ B('c20-scripts-keyed-by-escaped-path', 'C20', 'R20.q', WEBAPP,
   "            self._scripts[path] = new_script", "            self._scripts[new_script.path] = new_script")
 B('c05-already-defined-looks-up-next-token', 'C05', 'R05.k', PARSE,
   "            if not self._context.get_routine(name).undefined:", "            if not self._context.get_routine(str(self._current_token)).undefined:")
+B('c03-frames-share-machine-constants', 'C03', 'R03.h', CALLSTACK,
+  "        self._top.constants = constants or {}", "        self._top.constants = {} if constants is None else constants")
+N('c03-constants-fresh-if-form', 'C03', CALLSTACK,
+  "        self._top.constants = constants or {}", "        self._top.constants = constants if constants else {}")
